@@ -10,6 +10,8 @@
 //	              per-goroutine observation == sequential observation of a separately compiled copy
 //	(b) pool.go   primitive pool created on one Runtime / by package constructors, used by N Runtimes on N goroutines at once
 //	(c) cross.go  foreign *Object rejection (TypeError) and the NewSharedDynamicObject/Array exemption
+//	(e) positions.go  lazily built source-position table of a shared multi-line Program: sites visited in different orders per
+//	              goroutine (e.stack, new Error().stack, CaptureCallStack from a native), uncaught exceptions formatted in Go
 //	(d) firsttouch.go  first-touch races on lazily scanned strings: long fresh values, PRNG-chosen first operation per goroutine,
 //	              all goroutines released on the same value by a barrier; evidence = matrix of first-op pairs
 //
@@ -56,9 +58,10 @@ func Check() *core.Check {
 	return &core.Check{
 		ID:    "C16",
 		Level: "exploration",
-		Rule: "60%: program = 2-5 feature snippets (regexp literals: 16 flag sets x RE2/regexp2 bodies, tagged templates, classes with private names, eval/with dynamic scopes, constant-folded expressions, new Function, long string/BigInt constants) + a jsgen program (Safe; async in 1/3), " +
+		Rule: "55%: program = 2-5 feature snippets (regexp literals: 16 flag sets x RE2/regexp2 bodies, tagged templates, classes with private names, eval/with dynamic scopes, constant-folded expressions, new Function, long string/BigInt constants) + a jsgen program (Safe; async in 1/3), " +
 			"compiled ONCE and run by 2..16 goroutines on fresh Runtimes behind a start barrier, 5 rounds, each observation (outcome, value/error rendering, __out, instruction count) compared with the sequential run of a separately compiled copy; " +
 			"20%: pool of 8-16 primitives (unscanned Go strings > 16 bytes ASCII/non-ASCII, concatenations, substrings, StringFromUTF16, script-made strings incl. JSON.stringify results, symbols new/well-known/script, BigInts, ints, floats, bools, null, undefined) used by 2..12 Runtimes at once through a script of string/symbol/number operations and through the Go API, compared with a sequential reference on a twin pool; " +
+			"5%: positions: a fresh 100-400 line Program whose per-line site functions throw / read new Error().stack / call CaptureCallStack from a native, visited in a different host-supplied order by each of 2..8 goroutines (early lines first, late lines first, alternating, random), ending in an uncaught throw formatted on the Go side (Error(), String(), Stack()[i].Position()), compared with the sequential run of a separately compiled copy; " +
 			"10%: first-touch: 10-20 fresh lazily scanned strings of 20-100 KB (ToValue / concatenation of unscanned / JSON.stringify result; non-ASCII nowhere, at the start, middle, end, dense) per case, 2..8 goroutines released by a barrier on each value, each performing a PRNG-chosen FIRST operation out of 50 (script operators and methods, Go API), compared with the same operations on a twin value; " +
 			"10%: foreign *Object rejection over 21 object kinds x 8 routes + shared dynamic objects used concurrently; non-trivial = at least 2 goroutines overlapped in time on the same Program / pool (start/end timestamps from one atomic counter); zero race-detector reports",
 		Assumptions: []string{
@@ -73,7 +76,7 @@ func Check() *core.Check {
 			return 450
 		},
 		MinConclusive: func(tier string) int { return 100 },
-		NumPinned:     1 + len(pinnedProgs) + 2 + 2,
+		NumPinned:     1 + len(pinnedProgs) + 2 + 2 + 1,
 		Binary:        "race",
 		CaseTimeoutS:  300,
 		Run:           run,
@@ -165,6 +168,8 @@ func run(c *core.Ctx) core.Result {
 	switch {
 	case c.Index == -1:
 		res = importedWitness(c)
+	case c.Index == -6-len(pinnedProgs):
+		res = runPositions(c, true)
 	case c.Index == -5-len(pinnedProgs):
 		res = runFirstTouchMode(c, "strictequals")
 	case c.Index == -4-len(pinnedProgs):
@@ -177,6 +182,8 @@ func run(c *core.Ctx) core.Result {
 		if res.Verdict == core.Violated && res.Signature == "" {
 			res.Signature = "shared:" + res.Monitor + "|" + strings.Join(strings.Fields(src), " ")
 		}
+	case c.Index%20 == 5:
+		res = runPositions(c, false)
 	case c.Index%10 < 6:
 		src, tags := genSharedProgram(rng)
 		G := []int{2, 3, 4, 6, 8, 12, 16}[rng.Intn(7)]
